@@ -836,6 +836,10 @@ static void mode_run(const Case &c) {
   }
   for (long rep = 0; rep < repeat; rep++) {
     VM vm(cr.code);
+    // the same execution driven the way a debugger drives it: stepping mode on and/or every breakpoint enabled
+    if (c.opt("stepping", 0)) vm.setSteppingMode(true);
+    if (c.opt("breakall", 0))
+      for (auto &b : cr.code.getAvailableBreakpoints()) vm.setBreakPoint(b.file, b.line, true);
     Monitor mon;
     long steps = 0;
     long resets_done = 0;
@@ -843,6 +847,7 @@ static void mode_run(const Case &c) {
     while (steps < budget) {
       if ((size_t)resets_done < reset_at.size() && steps == reset_at[resets_done]) {
         vm.reset();
+        if (c.opt("stepping", 0)) vm.setSteppingMode(true);
         resets_done++;
         if (monitors) mon.boundary(vm);
       }
